@@ -390,6 +390,9 @@ func runC08(c *eng.Ctx) {
 	c.Rule("R08.6", "K2")
 	ruleReverseReaderSurvivesReplacement(c)
 
+	c.Rule("R08.1", "K1")
+	ruleCompactionScansEndOnlyAtEOF(c)
+
 }
 
 func isScanResult(v ssa.Value) bool {
